@@ -340,6 +340,8 @@ pub const FIELD_DEFAULT_FN: u64 = 7777;
 pub const CONTAINER_FN_BASE: u64 = 5000;
 pub const DEFAULT_IMPL_BASE: u64 = 6000;
 pub const FROM_IDENT_BASE: u64 = 8000;
+/// values of the decoy inherent functions (never observable)
+pub const DECOY_BASE: u64 = 3000;
 pub const AND_THEN_REJECTS: u64 = 13;
 pub fn map_fn(v: u64) -> u64 {
     2 * v + 1
